@@ -3,7 +3,8 @@
 //! (/verif/ref/frostref.py, pinned to the RFC 9591 appendix vectors) recomputes everything.
 
 use crate::rng::ScriptedRng;
-use crate::runner::{Outcome, Prop, Tier, verif_dir};
+use crate::pyref::ask_reference;
+use crate::runner::{Outcome, Prop, Tier};
 use crate::suites::{Id, REAL_SUITES, Suite};
 use crate::util::*;
 use crate::with_suite;
@@ -12,7 +13,6 @@ use frost_core::{Identifier, SigningKey, SigningPackage, VerifyingKey};
 use serde::{Deserialize, Serialize};
 use serde_json::{Value, json};
 use std::collections::BTreeMap;
-use std::io::Write;
 
 pub struct C02;
 
@@ -40,30 +40,6 @@ enum Case {
     Identifiers { suite: String },
     /// single-signer entry point both ways
     Single { suite: String, count: usize, seed: String },
-}
-
-/// Run the reference on a list of requests.
-fn ask_reference(reqs: &[Value]) -> Result<Vec<Value>, String> {
-    let dir = std::env::temp_dir();
-    static CTR: std::sync::atomic::AtomicU64 = std::sync::atomic::AtomicU64::new(0);
-    let k = CTR.fetch_add(1, std::sync::atomic::Ordering::Relaxed);
-    let path = dir.join(format!("frostmc-c02-{}-{k}.json", std::process::id()));
-    {
-        let mut f = std::fs::File::create(&path).map_err(|e| format!("tmp file: {e}"))?;
-        f.write_all(serde_json::to_string(reqs).unwrap().as_bytes()).map_err(|e| format!("tmp write: {e}"))?;
-    }
-    let script = verif_dir().join("ref").join("check.py");
-    let out = std::process::Command::new("python3").arg(&script).arg(&path).output();
-    let _ = std::fs::remove_file(&path);
-    let out = out.map_err(|e| format!("cannot run python3: {e}"))?;
-    if !out.status.success() {
-        return Err(format!("reference exited with {:?}: {}", out.status.code(), String::from_utf8_lossy(&out.stderr).chars().take(400).collect::<String>()));
-    }
-    let v: Vec<Value> = serde_json::from_slice(&out.stdout).map_err(|e| format!("reference output: {e}"))?;
-    if v.len() != reqs.len() {
-        return Err(format!("reference answered {} of {} requests", v.len(), reqs.len()));
-    }
-    Ok(v)
 }
 
 impl Prop for C02 {
